@@ -604,14 +604,22 @@ def alias_substitution(prog: Program, rep: Report, rule: str):
     # ... and such a look-up exists at all (a member that *is* a type variable -- `item: T` -- is replaced, not only re-subscribed),
     # and what is found is stored under the name of the very member it was computed from
     n_direct = 0
+
+    def _arms(v):
+        return _arms(v[2]) + _arms(v[3]) if v[0] == "ifexp" else [v]
+
     for p in ps:
-        for e in p.events:
-            if e[0] != "setitem":
-                continue
+        stores = [e for e in p.events if e[0] == "setitem"]
+        # the comprehension spelling of the same loop: {name: <substituted hint> for name, hint in hints.items()}
+        for tm in p.all_terms():
+            for x in T.walk(tm):
+                if x[0] == "comp" and x[1] == "dict" and x[2][0] == "pair":
+                    stores.append(("setitem", None, x[2][1], x[2][2]))
+        for e in stores:
             uses = [x for x in T.walk(e[3]) if (x[0] == "sub" and is_map(x[1])) or x in sites]
             if not uses:
                 continue
-            if any(x[0] == "sub" and is_map(x[1]) and e[3] == x for x in uses):
+            if any(x[0] == "sub" and is_map(x[1]) and x in _arms(e[3]) for x in uses):
                 n_direct += 1
             if not (e[2][0] == "key" and T.contains(e[3], lambda y: y == ("value", e[2][1]))):
                 why = f"a substituted hint is stored under {T.show(e[2])[:40]}, which is not the name of the member it was computed from (the members are not iterated as name/hint entries of one mapping): the hints of Box[int] are unusable or belong to other members"
